@@ -41,6 +41,21 @@ MODFILES = {
     "/p/_fw2.scss": '@forward "n"; @forward "m";\n$own: 9; $aaa: 8;\n',
 }
 
+# the same module names in the importing directory and in two load paths: which file a URL resolves to depends on the
+# files that exist and on the load-path order of *this* compilation only
+LAYERED = {
+    "/p/_m.scss": "$zeta: p-m; @function zf() {@return p}\n", "/l1/_m.scss": "$zeta: l1-m; @function zf() {@return l1}\n",
+    "/l2/_m.scss": "$zeta: l2-m; @function zf() {@return l2}\n", "/l1/_n.scss": "$yy: l1-n;\n", "/l2/n.scss": "$yy: l2-n;\n",
+    "/l2/_o.scss": "$oo: l2-o;\n", "/p/sub/_m.scss": "$zeta: sub-m; @function zf() {@return sub}\n",
+    "/p/sub/_q.scss": '@use "m"; $qq: m.$zeta;\n', "/l1/_q2.scss": '@use "m"; $qq: m.$zeta;\n',
+}
+LAYERED_MAINS = [
+    '@use "m"; @use "n"; @use "o"; a { b: m.$zeta n.$yy o.$oo m.zf(); }',
+    '@import "m"; @import "n"; a { b: $zeta $yy zf(); }',
+    '@use "sub/q"; @use "q2"; @use "m"; a { b: q.$qq q2.$qq m.$zeta; }',
+    '@forward "m"; @use "sass:meta"; a { @include meta.load-css("n"); }',
+]
+
 TARGETED = [
     "@function f($args...) { @return inspect(keywords($args)); } a { b: f($zz: 1, $aa: 2, $mm: 3, $bb: 4); }",
     "@function f($args...) { @return map-keys(keywords($args)); } a { b: f($zeta: 1, $alpha: 2, $omega: 3); }",
@@ -164,6 +179,13 @@ def programs(sh):
             out.append({"entry": "/p/main.scss", "files": files, "_targeted": True})
         else:
             out.append({"text": t, "_targeted": True})
+    for t in LAYERED_MAINS:
+        files = dict(LAYERED)
+        files["/p/main.scss"] = t
+        out.append({"entry": "/p/main.scss", "files": files, "load_paths": ["/l1", "/l2"], "_targeted": True, "_layered": True})
+        files = dict(files)
+        del files["/p/_m.scss"]
+        out.append({"entry": "/p/main.scss", "files": files, "load_paths": ["/l2", "/l1"], "_targeted": True, "_layered": True})
     # generated programs (the C03 generator), in both syntaxes
     from ..gen import ast, program
     g = Rng(sh.seed, "C02-programs", sh.shard)
@@ -189,7 +211,15 @@ def stale(x, rng):
         return t2 + "\n.stale { from: stale; }\n$stale-var: 1;\n"
     y = clean(x)
     if y.get("files"):
-        y["files"] = {p: (mut(c) if (p != y.get("entry") or rng.chance(0.5)) else c) for p, c in y["files"].items()}
+        how = rng.below(3)
+        if how != 1:
+            y["files"] = {p: (mut(c) if (p != y.get("entry") or rng.chance(0.5)) else c) for p, c in y["files"].items()}
+        if how != 0:
+            # another layout: some of the other files do not exist, the load paths come in another order / are fewer
+            y["files"] = {p: c for p, c in y["files"].items() if p == y.get("entry") or rng.chance(0.6)}
+            lp = list(y.get("load_paths") or [])
+            rng.shuffle(lp)
+            y["load_paths"] = lp[:rng.range(0, len(lp))] if lp and rng.chance(0.5) else lp
     if y.get("text") is not None:
         y["text"] = mut(y["text"])
     return y
@@ -304,6 +334,7 @@ def run(sh):
             report(sh, "history:interner-preload", x, ref_of(x), key(rs[-1]), history=hist)
 
     sfam = [x for x in targeted if x.get("files")]
+    sfam = sfam + [x for x in sfam if x.get("_layered")] * 3      # (layouts are drawn at random: several draws each)
     for k, x in enumerate(sfam):
         if k % sh.nshards != sh.shard:
             continue
